@@ -144,3 +144,14 @@ Example C12_nonvacuous_symbols :
   /\ symbols_ok_default ex_syms (format_default ex_syms ++ [104; 32; 61; 32; 48; 120; 55; 10]) = false
   /\ symbols_ok_mesen ex_syms (format_mesen_mlb ex_syms ++ [80; 58; 102; 102; 58; 104; 100; 10]) = false.
 Proof. exact example_symbols. Qed.
+
+(* the check also compares every span's address with the bank layout (Spec/ListingSpec.v addresses_ok: address =
+   addr_start + (offset - outp) / unit of the bank whose window holds the offset); this part of the property is
+   NOT a theorem (the model takes the spans as given), it is an executable specification evaluated on every
+   generated program *)
+Example C12_nonvacuous_addresses :
+  let banks := [mk_bankw 0 0%Z 8 (Some 0) None; mk_bankw 1 256%Z 12 (Some 0) (Some 1200)] in
+  addresses_ok banks [mk_lspan (Some 0) 0 256%Z 0 None; mk_lspan (Some 12) 12 257%Z 0 None; mk_lspan (Some 1200) 0 356%Z 0 None] = true
+  /\ addresses_ok banks [mk_lspan (Some 12) 12 259%Z 0 None] = false
+  /\ addresses_ok banks [mk_lspan (Some 12) 12 1%Z 0 None] = false.
+Proof. exact example_addresses. Qed.
